@@ -663,9 +663,6 @@ func inCdxClass(d M, v int) bool {
 				return false
 			}
 		}
-		if len(asList(attrOf(n, "Licenses"))) > 1 {
-			return false
-		}
 		for _, l := range asList(attrOf(n, "Licenses")) {
 			if asStr(l) == "" {
 				return false
@@ -775,7 +772,10 @@ func cdxEquiv(d, r M, v int) []string {
 			continue
 		}
 		a, b := ns[0], rs[0]
-		for _, f := range []string{"Name", "Version", "Description", "Copyright", "Hashes", "Licenses"} {
+		if !Equal(attrOf(a, "Licenses"), attrOf(b, "Licenses")) {
+			add("licence list of node %q: wrote %s, read %s", id, js(attrOf(a, "Licenses")), js(attrOf(b, "Licenses")))
+		}
+		for _, f := range []string{"Name", "Version", "Description", "Copyright", "Hashes"} {
 			if !Equal(attrOf(a, f), attrOf(b, f)) {
 				add("node %q attribute %s: wrote %s, read %s", id, f, js(attrOf(a, f)), js(attrOf(b, f)))
 			}
@@ -989,7 +989,7 @@ func oracleCdx(op M, res any, exec func(M) any) []Finding {
 			es[i], es[j] = es[j], es[i]
 		}
 		rev := exec(M{"op": "cdxRT", "doc": d2, "v": op["v"]})
-		if isDocJ(rev) && len(cdxEquiv(d, rev.(M), v)) > 0 {
+		if isDocJ(rev) && !Equal(cdxEquiv(d, rev.(M), v), cdxEquiv(d, r, v)) {
 			add("C02", "the result depends on the order in which the edges are stored")
 		}
 	}
